@@ -194,7 +194,8 @@ pub(crate) struct PosSubBuilder<T> {
     // map a feature tag + set of lookups to an index
     features: BTreeMap<(Tag, Vec<LookupIdx>), FeatureIdx>,
     // map a conditionset to a map of target features and the lookups to substitute
-    variations: HashMap<RawConditionSet, HashMap<FeatureIdx, Vec<LookupIdx>>>,
+    // (the inner map is ordered: substitution records must be sorted by feature index)
+    variations: HashMap<RawConditionSet, BTreeMap<FeatureIdx, Vec<LookupIdx>>>,
 }
 
 trait RemapIds {
